@@ -313,13 +313,24 @@ fn observe(b: B, seq: &[E], dom: &[u64]) -> Table {
     }
 }
 
-fn fail(l: &mut Local, b: B, point: &str, what: String, seq: &[E]) {
-    l.violation(format!("c08:{}:{point}", b.name()), format!("{}: {what}", b.name()), json!({"sequence": format!("{seq:x?}")}));
+fn fail(l: &mut Local, b: impl Into<BName>, point: &str, what: String, seq: &[E]) {
+    let name = b.into().0;
+    l.violation(format!("c08:{name}:{point}"), format!("{name}: {what}"), json!({"sequence": format!("{seq:x?}")}));
+}
+struct BName(&'static str);
+impl From<B> for BName {
+    fn from(b: B) -> BName {
+        BName(b.name())
+    }
+}
+impl From<&'static str> for BName {
+    fn from(s: &'static str) -> BName {
+        BName(s)
+    }
 }
 
 /// Oracle (2)(3)(4) on an observed table.
-fn check_table(l: &mut Local, b: B, seq: &[E], t: &Table) {
-    let win = matches!(b, B::SymWin0 | B::SymWin4);
+fn check_table(l: &mut Local, b: &'static str, win: bool, seq: &[E], t: &Table) {
     // (2) soundness
     for (a, got) in &t.at {
         l.eval();
@@ -367,7 +378,7 @@ fn check_table(l: &mut Local, b: B, seq: &[E], t: &Table) {
     }
     let valid = t.inputs.iter().filter(|i| i.own.is_some()).count();
     if valid >= 2 {
-        l.distinct(&(b.name(), t.by_addr.iter().map(|i| i.key).collect::<Vec<_>>(), t.inputs.iter().map(|i| i.own).collect::<Vec<_>>()));
+        l.distinct(&(b, t.by_addr.iter().map(|i| i.key).collect::<Vec<_>>(), t.inputs.iter().map(|i| i.own).collect::<Vec<_>>()));
     }
     let class = if valid == 0 {
         "no-valid-entry"
@@ -378,7 +389,7 @@ fn check_table(l: &mut Local, b: B, seq: &[E], t: &Table) {
     } else {
         "some-dropped-or-merged"
     };
-    l.outcome(&format!("{}:{class}", b.name()));
+    l.outcome(&format!("{b}:{class}"));
 }
 
 fn run_generic(l: &mut Local, seq: &[E], dom: &[u64]) {
@@ -510,7 +521,7 @@ fn space_for(b: B, name: &str, alpha: Vec<E>, min_len: u32, max_len: u32) -> Spa
             B::Generic => run_generic(l, &seq, &dom),
             B::Unloaded => run_unloaded(l, &seq, &dom),
             _ => match guard(|| observe(b, &seq, &dom)) {
-                Ok(t) => check_table(l, b, &seq, &t),
+                Ok(t) => check_table(l, b.name(), matches!(b, B::SymWin0 | B::SymWin4), &seq, &t),
                 Err(p) => {
                     if p.file.starts_with("src/") {
                         // a panic in this file (generator / identity decoding) is a harness bug, not a verdict
@@ -528,6 +539,111 @@ fn space_for(b: B, name: &str, alpha: Vec<E>, min_len: u32, max_len: u32) -> Spa
     Space::new(name, len, run, desc)
 }
 
+/// The same tables reached through `Minidump::read` of a whole synthesized dump: module list
+/// (its reader additionally drops size-0 / overflowing modules before building), memory info
+/// list, Linux maps, unloaded modules.
+fn space_dump(alpha: Vec<E>, max_len: u32) -> Space {
+    use minidump_synth::{DumpString, MemoryInfo, Module as SynthModule, SynthMinidump, UnloadedModule};
+    use test_assembler::Endian;
+    let k = alpha.len() as u64;
+    // non-empty sequences only (an empty list produces no stream at all)
+    let len = seq_count(k, max_len) - 1;
+    let dom = domain();
+    let alpha2 = alpha.clone();
+    let run = move |idx: u64, l: &mut Local| {
+        let seq: Vec<E> = seq_unrank(idx + 1, k, max_len).iter().map(|&d| alpha[d as usize]).collect();
+        let mut d = SynthMinidump::with_endian(Endian::Little);
+        let mut maps = String::new();
+        let ends: Vec<(u64, u64)> = seq.iter().map(|e| (e.base, e.base.wrapping_add(e.size).wrapping_sub(1))).collect();
+        let unloaded_ok = seq.iter().all(|e| excl(e.base, e.size).is_some());
+        for (i, e) in seq.iter().enumerate() {
+            let name = DumpString::new(&format!("{i}"), Endian::Little);
+            d = d.add_module(SynthModule::new(Endian::Little, e.base, e.size as u32, &name, 0, 0, None));
+            if unloaded_ok {
+                // the unloaded-module *reader* refuses a stream holding a size-0 / overflowing entry
+                // (an Err, documented with a TODO); only streams it accepts reach the table builder
+                d = d.add_unloaded_module(UnloadedModule::new(Endian::Little, e.base, e.size as u32, &name, 0, 0));
+            }
+            d = d.add(name);
+            d = d.add_memory_info(MemoryInfo::new(Endian::Little, e.base, i as u64, 0, e.size, 0, 0, 0));
+            maps += &format!("{:x}-{:x} r-xp 00000000 00:00 {i} /m\n", ends[i].0, ends[i].1);
+        }
+        d = d.set_linux_maps(maps.as_bytes());
+        let bytes = d.finish().expect("synth dump");
+        let obs = guard(|| {
+            let dump = Minidump::read(&bytes[..]).expect("c08 generator: dump rejected");
+            let ml = dump.get_stream::<MinidumpModuleList>().expect("c08 generator: module list");
+            let item = |m: &MinidumpModule| Item { own: natural(m.base_address(), m.size()), key: (m.base_address(), m.size(), m.name.parse().expect("name")) };
+            let t_mod = Table {
+                inputs: seq.iter().enumerate().map(|(i, e)| Item { own: excl(e.base, e.size), key: (e.base, e.size, i as u64) }).collect(),
+                by_addr: ml.by_addr().map(item).collect(),
+                at: dom.iter().map(|&a| (a, ml.module_at_address(a).map(item))).collect(),
+            };
+            let t_info = if seq.is_empty() {
+                None
+            } else {
+                let il = dump.get_stream::<MinidumpMemoryInfoList>().expect("c08 generator: memory info list");
+                let item = |m: &MinidumpMemoryInfo| Item { own: natural(m.raw.base_address, m.raw.region_size), key: (m.raw.base_address, m.raw.region_size, m.raw.allocation_base) };
+                Some(Table {
+                    inputs: seq.iter().enumerate().map(|(i, e)| Item { own: excl(e.base, e.size), key: (e.base, e.size, i as u64) }).collect(),
+                    by_addr: il.by_addr().map(item).collect(),
+                    at: dom.iter().map(|&a| (a, il.memory_info_at_address(a).map(item))).collect(),
+                })
+            };
+            let lm = dump.get_stream::<MinidumpLinuxMaps>().expect("c08 generator: maps");
+            let own = |a0: u64, a1: u64| if a0 <= a1 { Some((a0, a1)) } else { None };
+            let item = |m: &MinidumpLinuxMapInfo| Item { own: own(m.map.address.0, m.map.address.1), key: (m.map.address.0, m.map.address.1, m.map.inode) };
+            let t_maps = Table {
+                inputs: ends.iter().enumerate().map(|(i, &(a0, a1))| Item { own: own(a0, a1), key: (a0, a1, i as u64) }).collect(),
+                by_addr: lm.by_addr().map(item).collect(),
+                at: dom.iter().map(|&a| (a, lm.memory_info_at_address(a).map(item))).collect(),
+            };
+            let unl = if unloaded_ok && !seq.is_empty() {
+                let ul = dump.get_stream::<MinidumpUnloadedModuleList>().expect("c08 generator: unloaded list");
+                Some(dom.iter().map(|&a| ul.modules_at_address(a).map(|m| (m.base_address(), m.size(), m.name.parse::<u64>().expect("name"))).collect::<Vec<_>>()).collect::<Vec<_>>())
+            } else {
+                None
+            };
+            (t_mod, t_info, t_maps, unl)
+        });
+        match obs {
+            Ok((t_mod, t_info, t_maps, unl)) => {
+                check_table(l, "dump-modules", false, &seq, &t_mod);
+                if let Some(t) = t_info {
+                    check_table(l, "dump-memory-info", false, &seq, &t);
+                }
+                check_table(l, "dump-linux-maps", false, &seq, &t_maps);
+                if let Some(at) = unl {
+                    for (k, &a) in dom.iter().enumerate() {
+                        l.eval();
+                        let mut got = at[k].clone();
+                        got.sort();
+                        let mut exp: Vec<(u64, u64, u64)> = seq.iter().enumerate().filter(|(_, e)| excl(e.base, e.size).is_some_and(|r| contains(r, a))).map(|(i, e)| (e.base, e.size, i as u64)).collect();
+                        exp.sort();
+                        if got != exp {
+                            fail(l, "dump-unloaded", "modules_at_address-differs-from-filter", format!("modules_at_address({a:#x}) = {got:x?}, entries covering it = {exp:x?}"), &seq);
+                        }
+                    }
+                    l.outcome("dump-unloaded:stream-accepted");
+                } else {
+                    l.outcome("dump-unloaded:not-generated-or-reader-would-refuse");
+                }
+            }
+            Err(p) => {
+                if p.file.starts_with("src/") {
+                    panic!("harness: {} ({}:{})", p.msg, p.file, p.line);
+                }
+                l.panic_violation(&p, json!({"builder": "dump", "sequence": format!("{seq:x?}")}))
+            }
+        }
+    };
+    let desc = move |idx: u64| {
+        let seq: Vec<E> = seq_unrank(idx + 1, k, max_len).iter().map(|&d| alpha2[d as usize]).collect();
+        json!({"builder": "dump", "class": "dump", "entries": seq.iter().map(|e| json!({"base": format!("{:#x}", e.base), "size": format!("{:#x}", e.size)})).collect::<Vec<_>>()})
+    };
+    Space::new("dump", len, run, desc)
+}
+
 const ALL: [B; 12] = [B::Generic, B::SymFunc, B::SymLine, B::SymCfi, B::SymWin4, B::SymWin0, B::Modules, B::Memory, B::Memory64, B::MemoryInfo, B::LinuxMaps, B::Unloaded];
 
 fn main() {
@@ -535,7 +651,7 @@ fn main() {
         let mut def = CheckDef::new(
             "C08",
             "exploration",
-            "bounded-exhaustive: every input-ordered sequence of <= L (base,size,value) entries over the alphabet {bases 0..5, 2^64-4..2^64-1} x {size 0,1,2,3, all-ones of the size field} x {value a shared by all a-entries, value b distinct per position} (index-valued builders: one value per position) through each of 12 table builders; every table is queried at 35 addresses (0..9, 2^32-4..2^32+6, 2^64-8..2^64-1) and iterated; oracle = brute force over the input list: lookup result contains the address and is an input entry, iteration sorted and pairwise disjoint, an entry intersecting no other entry is returned at each of its addresses and iterated, unloaded lookup == filter over all entries. evaluations = lookups. distinct_nontrivial = distinct (builder, resulting table, input range pattern) among sequences with >= 2 valid entries.",
+            "bounded-exhaustive: every input-ordered sequence of <= L (base,size,value) entries over the alphabet {bases 0..5, 2^64-4..2^64-1} x {size 0,1,2,3, all-ones of the size field} x {value a shared by all a-entries, value b distinct per position} (index-valued builders: one value per position) through each of 12 table builders (plus, for sequences of <= 2 (thorough 3), the module / memory-info / Linux-maps / unloaded tables obtained by Minidump::read of a synthesized dump); every table is queried at 35 addresses (0..9, 2^32-4..2^32+6, 2^64-8..2^64-1) and iterated; oracle = brute force over the input list: lookup result contains the address and is an input entry, iteration sorted and pairwise disjoint, an entry intersecting no other entry is returned at each of its addresses and iterated, unloaded lookup == filter over all entries. evaluations = lookups. distinct_nontrivial = distinct (builder, resulting table, input range pattern) among sequences with >= 2 valid entries.",
         );
         def.assumptions = vec![
             "an entry's own range is the one its type documents through memory_range(): size != 0 and base+size representable for modules, unloaded modules, memory regions, memory info, FUNC, STACK CFI INIT, STACK WIN (so an entry ending exactly at 2^64 has NO range and is never expected back); size != 0 and last byte representable for line records and the generic builder; [first,last] inclusive with first <= last for Linux maps (adjacent maps therefore intersect)".into(),
@@ -549,6 +665,7 @@ fn main() {
         for b in ALL {
             def.spaces.push(space_for(b, b.name(), alphabet(b.huge(), b.tags(), false), 0, 3));
         }
+        def.spaces.push(space_dump(alphabet(u32::MAX as u64, 1, false), if thorough { 3 } else { 2 }));
         if thorough {
             for b in ALL {
                 def.spaces.push(space_for(b, &format!("{}-len4", b.name()), alphabet(b.huge(), b.tags(), true), 4, 4));
